@@ -17,7 +17,8 @@
 //!   ops:      on off pas | per:<lo>:<hi> (poll period in 1/32 slot times) | run:<n> | skip:<k> |
 //!             inj:<hex> (bytes appear at once) | injt:<hex> (bytes arrive at line speed) |
 //!             start:<addr> (give the token to an environment master) | kill:<addr> | rev:<addr> |
-//!             busy:<mode> (what poll_transmission answers: 0 exact, 1 never, 2 late, 3 random, 4 exact inclusive)
+//!             busy:<mode>[:<bits>] (what poll_transmission answers: 0 exact, 1 never, 2 late by <bits> - the
+//!             transmission really lasts that much longer, peers react to its real end -, 3 random, 4 exact inclusive)
 //!
 //! Result (after ` => `): the transcript, events separated by `;`
 //!   `A <name> <obs>`                                              API call
@@ -233,6 +234,8 @@ struct Env {
     slot_bits: u64,
     ts: u8,
     rng: Rng,
+    /// the station's transmissions really last this much longer than 11 bit per byte (busy mode 2)
+    tx_extra_bits: u64,
 }
 
 fn build<F: FnOnce(TelegramTx) -> TelegramTxResponse>(f: F) -> Vec<u8> {
@@ -347,7 +350,7 @@ impl Env {
     /// React to a transmission of the station under test.
     fn on_ts_tx(&mut self, now: i64, bytes: &[u8]) {
         self.last_ts_tx = now;
-        let end = now + self.bit(11 * bytes.len() as u64);
+        let end = now + self.bit(11 * bytes.len() as u64 + self.tx_extra_bits);
         let ts = self.ts;
         let Some(Ok((t, _))) = Telegram::deserialize(bytes) else { return };
         match t {
@@ -712,6 +715,7 @@ fn run_case_inner(line: &str, shared: Arc<Mutex<String>>) -> String {
             slot_bits: slot_bits as u64,
             ts: addr,
             rng: Rng::new(seed ^ 0x5555),
+            tx_extra_bits: 0,
         },
         now: t0,
         tx_end: i64::MIN / 2,
@@ -784,6 +788,7 @@ fn run_case_inner(line: &str, shared: Arc<Mutex<String>>) -> String {
                 if let Some(x) = f.get(2) {
                     r.late_bits = x.parse().unwrap();
                 }
+                r.env.tx_extra_bits = if r.busy_mode == 2 { r.late_bits } else { 0 };
                 true
             }
             s if s.starts_with('p') && f.len() == 8 => {
@@ -1222,6 +1227,79 @@ impl<'a> Gen<'a> {
         } else {
             write!(env, " run:{}", self.rng.range(300, 900)).unwrap();
         }
+        // the other masters die (sometimes while holding the token): the station re-claims with its GAP
+        // cursor somewhere in the middle of a sweep or in its waiting phase
+        if self.rng.chance(2, 3) {
+            if let Some(q) = late_master {
+                write!(env, " kill:{}", q).unwrap();
+            }
+            for _ in 0..3 {
+                write!(env, " run:{} kill:{} run:{} rev:{}", self.rng.range(1, 25), m, Self::claim_polls(&p) + 120, m).unwrap();
+            }
+        }
+        let h = self.header(&p);
+        self.emit(format!("{}{} / ENV {}", h, apps, env));
+    }
+
+    /// short target rotation time and applications that always have something to send (SDN, no reply
+    /// expected, never declining) next to applications that decline or whose requests time out: the
+    /// hold time expires in the middle of a visit; a request of one application times out after
+    /// another one has already declined in the same visit
+    fn hold_expiry(&mut self) {
+        let mut p = self.params();
+        p.addr = self.rng.range(0, 9) as u8;
+        p.hsa = (p.addr as i64 + self.rng.range(1, 4)).min(126) as u8;
+        p.ttr = *self.rng.pick(&[256u32, 400, 800, 1500, 3000, 8000]);
+        p.gap = *self.rng.pick(&[1u8, 10, 100]);
+        let dead = if p.addr == 100 { 101 } else { 100u8 }; // nobody answers here: requests time out
+        let napps = self.rng.range(1, 3) as usize;
+        let mut apps = String::new();
+        for i in 0..napps {
+            let style = self.rng.below(4);
+            let n = self.rng.range(1, 5) as usize;
+            let mut ds: Vec<String> = vec![];
+            for _ in 0..n {
+                let plen = *self.rng.pick(&[0usize, 1, 4, 12]);
+                let pdu = self.rng.bytes(plen);
+                ds.push(match style {
+                    0 => format!("N{},{},-,-", dead, hex(&pdu)),                       // always sends, no reply expected
+                    1 => if self.rng.chance(1, 2) { "D".to_string() } else { format!("R{},{},-,-", dead, hex(&pdu)) }, // declines / times out
+                    2 => format!("R{},{},-,-", dead, hex(&pdu)),                       // every request times out
+                    _ => if self.rng.chance(1, 3) { "D".to_string() } else { format!("M{},{},-,-{}", dead, hex(&pdu), if self.rng.chance(1, 3) { ",l" } else { "" }) },
+                });
+            }
+            let looping = style != 1 || self.rng.chance(1, 2) || i == 0;
+            write!(apps, " / APP{} {}", if looping { "*" } else { "" }, ds.join(" ")).unwrap();
+        }
+        let env = format!("on per:8:8 run:{} per:2:8 run:{}", Self::claim_polls(&p) + 30, self.rng.range(500, 1200));
+        let h = self.header(&p);
+        self.emit(format!("{}{} / ENV {}", h, apps, env));
+    }
+
+    /// the PHY reports the transmission in progress for longer than the predicted 11 bit per byte; the
+    /// successor answers a token late but inside the slot time, or not at all
+    fn late_busy(&mut self) {
+        let mut p = self.params();
+        p.addr = self.rng.range(0, 12) as u8;
+        p.hsa = (p.addr as i64 + self.rng.range(3, 8)).min(126) as u8;
+        p.gap = *self.rng.pick(&[1u8, 10, 100]);
+        let slot = p.slot as i64;
+        let late = self.rng.range(slot * 4 / 10, slot * 9 / 10);
+        let succ = p.addr + self.rng.range(1, (p.hsa - p.addr - 1) as i64) as u8;
+        let role = self.rng.below(3); // 0: ready but never reacts to a token, 1/2: master answering late
+        let delay = self.rng.range(34, (slot - 25).max(35));
+        let env = format!(
+            "p{}:{}:k:11:{}:{}:{}:0 busy:2:{} on per:8:8 run:{} per:2:8 run:{}",
+            succ,
+            self.rng.pick(&['r', 'i']),
+            (role > 0) as u8,
+            p.addr,
+            delay,
+            late,
+            Self::claim_polls(&p) + 40,
+            self.rng.range(400, 900)
+        );
+        let apps = if self.rng.chance(1, 3) { self.apps(&[succ]) } else { String::new() };
         let h = self.header(&p);
         self.emit(format!("{}{} / ENV {}", h, apps, env));
     }
@@ -1293,5 +1371,11 @@ pub fn gen(seed: u64, thorough: bool, out: &mut dyn FnMut(String)) {
     }
     for _ in 0..350 * scale {
         g.ring3();
+    }
+    for _ in 0..300 * scale {
+        g.hold_expiry();
+    }
+    for _ in 0..250 * scale {
+        g.late_busy();
     }
 }
